@@ -38,10 +38,11 @@ fn make_range_internal<Data: GarnishData>(
                 left_addr
             };
 
+            // a range holds its last number, like range_len and every reader of a range assume
             let right_addr = if end_exclusive {
-                right_addr
+                this.add_number(this.get_number(right_addr)?.decrement().or_num_err()?)?
             } else {
-                this.add_number(this.get_number(right_addr)?.increment().or_num_err()?)?
+                right_addr
             };
 
             let addr = this.add_range(left_addr, right_addr)?;
